@@ -11,7 +11,7 @@ for f in sorted(glob.glob(os.path.join(sys.argv[1], "C??.json"))):
         continue
     c = e["coverage"]
     res[e["property_id"]] = {"executions": c.get("traces_validated_against_impl", 0), "states": c.get("states", 0), "transitions": c.get("transitions", 0),
-                             "wall_s": round(e.get("wall_s", 0)), "exhaustive": bool(c.get("exhaustive")), "violations": len(e.get("violations", [])),
+                             "wall_s": round(e.get("wall_s", 0)), "exhaustive": bool(c.get("exhaustive")), "violations": (e.get("violations") if isinstance(e.get("violations"), int) else len(e.get("violations") or [])),
                              "known_findings": len(c.get("known_findings_reproduced", []) or []), "verif_commit": sys.argv[2] if len(sys.argv) > 2 else None}
 json.dump(res, open(out, "w"), indent=1, sort_keys=True)
 print("recorded", sorted(res))
